@@ -16,6 +16,7 @@
   No Mathlib import.
 -/
 import Lcapy.Model.Decompose
+import Lcapy.Model.Reassemble
 import Lcapy.Model.CRat
 namespace Lcapy.Groups
 open Lcapy Lcapy.Decompose
@@ -57,6 +58,18 @@ def srcKinds (s : Src) : List Key :=
     (if d.dc != 0 then [Key.dc] else []) ++
     ((d.ac.filter (fun p => p.2.1 != 0 || p.2.2 != 0)).map (fun p => Key.ac p.1)) ++
     (if d.tr.isEmpty then [] else [Key.transient])
+
+/-- the Laplace-domain value (at the point `s0`) of the part of a source value that the group of kind `k` takes:
+    what `SuperSolve.run` feeds to the group's sub-netlist (`dc` sum, accumulated phasor of ω, transient part),
+    transformed as `Superposition.laplace()` transforms it -/
+def partLap (XL : Nat → Rat) (s0 : Rat) (d : Decomp Rat) : Key → Rat
+  | .dc => d.dc / s0
+  | .ac w => phasorLap (acPart d w).1 (-(acPart d w).2) w s0
+  | .transient => trPart XL d
+  | _ => 0
+
+/-- group `k` of `g` lists the source name `n` -/
+def listed (g : List (Key × List String)) (k : Key) (n : String) : Prop := ∃ l, (k, l) ∈ g ∧ n ∈ l
 
 def Key.isNoise : Key → Bool
   | .noise _ => true
